@@ -52,6 +52,55 @@ Uninitialized(src) ==
   \E M \in 0..(Len(src.nts) - 1) : \E r \in RefsIn(NT(src, M).e) : \E x \in DeclNames(src, r.n) :
      ~HasArg(r, x) /\ x \notin DeclNames(src, M) /\ ~DeclOf(src, r.n, x).hasDef
 
+
+(* ---- lookahead flags: which grammars are rejected (syntax/templates.go PropagateLookaheads) ---- *)
+(* A lookahead flag is not declared by the nonterminals that use it; it is handed down from an explicit argument  *)
+(* through entry positions only.  Accept[N]: the flags N can make use of (it tests or forwards them itself, or the *)
+(* nonterminals at its entry positions can, unless the reference sets the flag explicitly).  Provided[N]: the flags *)
+(* that actually reach N.  Rejected: an explicit argument nobody can use; a flag that reaches a nonterminal whose   *)
+(* alternatives do not all start with a non-nullable clause; a flag tested where it never arrives; a flag that      *)
+(* reaches an input.                                                                                                *)
+NTs(src) == 0..(Len(src.nts) - 1)
+RECURSIVE EntryRefsOf(_), CompatOf(_), PredNames(_), UsesOf(_, _)
+EntryRefsOf(e) == CASE e.k = "t" -> {}
+                    [] e.k = "ref" -> {e}
+                    [] e.k = "alt" ->      \* deviation of the code, modelled as it is: the scan of the alternatives stops after
+                                           \* the first one that does not start with a non-nullable clause (short-circuit '&&')
+                         LET bad == { i \in 1..Len(e.sub) : ~CompatOf(e.sub[i]) }
+                             last == IF bad = {} THEN Len(e.sub) ELSE CHOOSE i \in bad : \A j \in bad : i <= j
+                         IN UNION { EntryRefsOf(e.sub[i]) : i \in 1..last }
+                    [] OTHER -> EntryRefsOf(e.sub[1])            \* seq: its first element; opt, list, cond: the content
+CompatOf(e) == CASE e.k \in {"t", "ref"} -> TRUE
+                 [] e.k = "alt" -> \A i \in 1..Len(e.sub) : CompatOf(e.sub[i])
+                 [] e.k = "opt" -> FALSE
+                 [] e.k = "list" -> e.plus /\ CompatOf(e.sub[1])
+                 [] OTHER -> CompatOf(e.sub[1])
+PredNames(p) == IF p.k \in {"and", "or"} THEN UNION { PredNames(p.sub[i]) : i \in 1..Len(p.sub) } ELSE {p.name}
+UsesOf(src, e) ==        \* lookahead flags tested in predicates or forwarded as argument values, anywhere in e
+  CASE e.k = "t" -> {}
+    [] e.k = "ref" -> { e.args[i].from : i \in { i \in 1..Len(e.args) : e.args[i].v = "from" } } \cap LANames(src)
+    [] e.k = "cond" -> (PredNames(e.pred) \cap LANames(src)) \cup UsesOf(src, e.sub[1])
+    [] OTHER -> UNION { UsesOf(src, e.sub[i]) : i \in 1..Len(e.sub) }
+ExplicitLA(src, r) == { r.args[i].name : i \in 1..Len(r.args) } \cap LANames(src)
+RECURSIVE AcceptFix(_, _)
+AcceptFix(src, A) ==
+  LET A2 == [N \in NTs(src) |-> A[N] \cup UsesOf(src, NT(src, N).e)
+                                   \cup UNION { A[r.n] \ ExplicitLA(src, r) : r \in EntryRefsOf(NT(src, N).e) }]
+  IN IF A2 = A THEN A ELSE AcceptFix(src, A2)
+Accept(src) == AcceptFix(src, [N \in NTs(src) |-> {}])
+RECURSIVE ProvidedFix(_, _, _)
+ProvidedFix(src, A, P) ==
+  LET P2 == [T \in NTs(src) |-> P[T]
+               \cup { L \in A[T] : \E M \in NTs(src) : \E r \in RefsIn(NT(src, M).e) : r.n = T /\ L \in ExplicitLA(src, r) }
+               \cup { L \in A[T] : \E N \in NTs(src) : \E r \in EntryRefsOf(NT(src, N).e) : r.n = T /\ L \in P[N] /\ L \notin ExplicitLA(src, r) }]
+  IN IF P2 = P THEN P ELSE ProvidedFix(src, A, P2)
+Provided(src) == ProvidedFix(src, Accept(src), [N \in NTs(src) |-> {}])
+NotUsedErr(src) == \E M \in NTs(src) : \E r \in RefsIn(NT(src, M).e) : \E L \in ExplicitLA(src, r) : L \notin Accept(src)[r.n]
+CompatErr(src) == \E N \in NTs(src) : Provided(src)[N] # {} /\ ~CompatOf(NT(src, N).e)
+NeverProvidedErr(src) == \E N \in NTs(src) : \E L \in UsesOf(src, NT(src, N).e) : L \notin Provided(src)[N]
+InputErr(src, inputs) == \E N \in inputs : Provided(src)[N] # {}
+LookaheadMisuse(src, inputs) == NotUsedErr(src) \/ CompatErr(src) \/ NeverProvidedErr(src) \/ InputErr(src, inputs)
+
 Live(e, S) == { i \in 1..Len(e.sub) : e.sub[i].k # "cond" \/ PredT(e.sub[i].pred, S) }
 RECURSIVE DenT(_, _, _, _, _, _, _)
 DenT(src, e, M, S, entry, D, L) ==
